@@ -850,7 +850,10 @@ PROPS = {
                        "back; that window numbers ascend, which the RFC also demands, is not checked by the code -- an audit "
                        "observation, see DESIGN.md), and on accepted data contains / read_window / split_rtype and the iterator RtypeBitmapIter::{new, "
                        "advance, next} are total: the unwrap() cannot fail, no index leaves the data, advance terminates (for "
-                       "bitmaps of every length).",
+                       "bitmaps of every length); and the iteration is exact: new() stands on the first set bit, every next() reports the type of "
+                       "the bit it stands on (window << 8 | octet << 3 | bit) and moves to the next set bit without passing one (the count "
+                       "bits_after of set bits still to come drops by exactly one per item and is zero when the iterator is exhausted), so the types "
+                       "listed are exactly the bits set.",
         "assumptions": [
             "AsRefOctets models the bound AsRef<[u8]>: an octets value has one fixed content returned by every as_ref() call",
             "Rtype (int_enum! macro) is modelled as a 16-bit code with from_int/to_int",
